@@ -55,6 +55,7 @@ def glueRender (basis : Array W) (realAI friendly : Bool) (p : Pos) (c : GlueCal
 structure GlueSt where
   fpa : Option (Variant × Rule)
   positions : List Pos        -- newest first
+  all : Array Pos             -- every position that ever was in the record, in order of creation
   moves : List Move := []
   out : List String := []     -- newest first
   stop : Bool := false
@@ -69,7 +70,7 @@ def glueStep (basis : Array W) (who : GlueWho) (realAI : Bool) (st : GlueSt) (to
     match parseMove (tok.drop 1).toString, st.positions with
     | some m, p :: _ =>
       match p.apply basis m with
-      | .ok q => { st with positions := q :: st.positions, moves := m :: st.moves }
+      | .ok q => { st with positions := q :: st.positions, all := st.all.push q, moves := m :: st.moves }
       | .error _ => { st with out := "illegal" :: st.out, stop := true }
     | _, _ => { st with out := "bad-op" :: st.out, stop := true }
   else if tok == "u" then
@@ -79,10 +80,9 @@ def glueStep (basis : Array W) (who : GlueWho) (realAI : Bool) (st : GlueSt) (to
   else if tok.startsWith "c" then
     match parseGlueCall tok, st.positions with
     | some c, head :: _ =>
-      let n := st.positions.length
       let p? : Option Pos := match c.j with
         | none => some head
-        | some j => if j < n then st.positions[n - 1 - j]? else none
+        | some j => st.all[j]?
       match p? with
       | none => { st with out := "bad-op" :: st.out, stop := true }
       | some p =>
@@ -119,12 +119,12 @@ def glueRun (basis : Array W) (args : List String) : String :=
         | none => none
         | some var =>
           match Pos.new (friendlyConfig var.isSome size) with
-          | .ok p0 => some (.friendly (glueColor col) size, { fpa := var.map (·, {}), positions := [p0] })
+          | .ok p0 => some (.friendly (glueColor col) size, { fpa := var.map (·, {}), positions := [p0], all := #[p0] })
           | .error _ => none
       else if who == "T" then
         match a1.toInt?, Pos.new { size := size, pieces := 0, capstones := 0, blackWinsTies := false } with
         | some lim, .ok p0 =>
-          some (.taktician { limit := lim, useOpponentTime := a4 == "1" } (glueColor col) size, { fpa := none, positions := [p0] })
+          some (.taktician { limit := lim, useOpponentTime := a4 == "1" } (glueColor col) size, { fpa := none, positions := [p0], all := #[p0] })
         | _, _ => none
       else none
     match start with
